@@ -248,7 +248,7 @@ fn validate_checksum(message_bytes: &[u8], expected_checksum: &str) -> Result<()
     let computed = hasher.finalize();
     let computed_hex = format!("{computed:x}");
 
-    if computed_hex != expected_checksum {
+    if !computed_hex.eq_ignore_ascii_case(expected_checksum) {
         return Err(ProtocolError::Parse(format!(
             "Checksum validation failed: expected '{expected_checksum}', got '{computed_hex}'"
         )));
